@@ -69,7 +69,9 @@
 (*                                                                         *)
 (* DEGENERATE NETWORKS.  When a proposed integer combination c of the      *)
 (* element balances verifies EqLin!DependentElements (redundant balances)  *)
-(* or EqLin!ForcedZero (a species the feed cannot form), a failing         *)
+(* or ForcedSmall (a species the feed cannot form, or can form only below  *)
+(* 1e-9 of the largest element total: EqLin!ForcedZero and its near case), *)
+(* a failing                                                               *)
 (* Stationary / NearMinimum is named with the suffix _DependentElements /  *)
 (* _ForcedZero (OrderIndependent likewise), so that this class can be      *)
 (* listed as a known finding without hiding any failure on a regular       *)
@@ -133,10 +135,18 @@ WitnessOK(e) ==
 Positive(e) == \A i \in 1..Len(e.n) : e.n[i][1] > 0
 WellCond(e) == \A i \in 1..Len(e.n) : Le(Mul(Tau, e.ntot), e.n[i])
 
+\* sum_i w_i n_i = sum_i w_i feed_i for every atom-conserving n; with w >= 0 every species with
+\* w_i >= 1 is forced below sum_i w_i feed_i, here at most AbsFloor of the largest element total
+\* (EqLin!ForcedZero is the case where that sum is exactly 0)
+ForcedSmall(E, c, feed, tot) ==
+   LET w == Weights(E, c) IN
+   /\ Len(c) = NEl(E)
+   /\ \A i \in 1..Len(E) : w[i] >= 0
+   /\ \E i \in 1..Len(E) : w[i] > 0
+   /\ Le(Dot(feed, [i \in 1..Len(E) |-> I(w[i])]), Mul(AbsFloor, MaxSeq(tot)))
 Class(e) ==
    IF e.depc # <<>> /\ DependentElements(st.E, e.depc) THEN "_DependentElements"
-   ELSE IF e.fzc # <<>> /\ ForcedZero(st.E, e.fzc, [i \in 1..Len(st.feed) |-> st.feed[i][1] > 0])
-        THEN "_ForcedZero"
+   ELSE IF e.fzc # <<>> /\ ForcedSmall(st.E, e.fzc, st.feed, st.tot) THEN "_ForcedZero"
    ELSE ""
 
 StationaryAt(nu, e, invmin) ==
